@@ -702,3 +702,5 @@ def _run(world: World, plan):
     return common.finish(world, nontrivial, [sig, seqs, plan['mode']])
 
 INFO['rule'] += ' Round-5 additions: end disconnect_unsent (the application disconnects while > 64 KiB sit in the send path towards a peer that stopped reading); the simulated transport defers connection_lost while unsent data is in flight.'
+
+INFO['rule'] += ' Round-6 additions: two connections answering one relayed request with the same ticket (twin_pierce).'
